@@ -86,4 +86,10 @@ class HeapProgram:
             elif k == "walk":
                 L.append("    { Node c = v%d; int i = 0; while (i < %d) { if (c != null) { echo(c.id); c = c.a; } i = i + 1; } }" % (op[1], op[2]))
         L.append("}")
-        return "\n".join(L)
+        text = "\n".join(L)
+        # main's four variables get different names from program to program (never consuming the generator's randomness): the order in
+        # which they die at the end of main must be the reverse of their declaration, whatever they are called
+        sets = [["v0", "v1", "v2", "v3"], ["a", "b", "e", "d"], ["w", "u", "s", "z"], ["first", "b2", "k", "zz"], ["n1", "n2", "n3", "n4"]]
+        names = sets[(len(self.ops) + sum(op[1] for op in self.ops if len(op) > 1 and isinstance(op[1], int))) % len(sets)]
+        import re as _re
+        return _re.sub(r"\bv([0-3])\b", lambda m: names[int(m.group(1))], text)
